@@ -683,6 +683,42 @@ theorem blockInvalid_ref (env : Env) (s : State) (sp sp' : Spec) (h : Ref env s 
           (fun _ _ => rfl) ?_ ⟨e0, he0⟩
         intro e' he' ht; rw [hk e' he'] at ht; cases ht
 
+/-- `forgets`: BlockInvalid takes the delete branch, the key leaves the index -/
+theorem blockInvalid_forgets (s : State) (hash : Bytes) (hf : forgets s (keyOf hash) = true) :
+    AL.get (blockInvalid s hash).1.index (keyOf hash) = none := by
+  unfold forgets at hf
+  unfold blockInvalid
+  simp only
+  split
+  · rename_i hn; exact hn
+  · rename_i r0 hr0
+    rw [hr0] at hf
+    simp only [Bool.and_eq_true, Bool.not_eq_eq_eq_not, Bool.not_true] at hf
+    simp only [hf.1, Bool.false_eq_true, ↓reduceIte, hf.2, AL.get_del]
+
+/-- an entry the specification makes no claim about (tainted) whose key is not in the index can be dropped -/
+theorem ref_spec_drop (env : Env) (s : State) (sp sp' : Spec) (h : Ref env s sp) (k : Key)
+    (hopen : sp'.isOpen = sp.isOpen)
+    (hm : ∀ k', k ≠ k' → AL.get sp'.m k' = AL.get sp.m k')
+    (hnone : AL.get sp'.m k = none) (hidx : AL.get s.index k = none) : Ref env s sp' := by
+  refine ⟨by rw [hopen]; exact h.opn, h.cur, ?_, h.pos, h.cacheidx, ?_, h.qseq, ?_, ?_⟩
+  · intro k' r hr
+    by_cases hkk : k = k'
+    · subst hkk; rw [hidx] at hr; cases hr
+    · rw [hm k' hkk]; exact h.idxspec k' r hr
+  · intro k' c e' hc he' ht hkl
+    by_cases hkk : k = k'
+    · subst hkk; rw [hnone] at he'; cases he'
+    · rw [hm k' hkk] at he'; exact h.cachedata k' c e' hc he' ht hkl
+  · intro b hb r e' hri hseq hip he' ht
+    by_cases hkk : k = b.idx
+    · rw [← hkk, hnone] at he'; cases he'
+    · rw [hm _ hkk] at he'; exact h.qdata b hb r e' hri hseq hip he' ht
+  · intro k' e' he' ht
+    by_cases hkk : k = k'
+    · subst hkk; rw [hnone] at he'; cases he'
+    · rw [hm k' hkk] at he'; exact h.ent k' e' he' ht
+
 /-! ### BlockAdd -/
 
 theorem addNew_ref (env : Env) (s : State) (sp sp' : Spec) (h : Ref env s sp) (k : Key)
@@ -993,7 +1029,7 @@ theorem blockLength_ref (env : Env) (s : State) (sp : Spec) (h : Ref env s sp) (
 
 theorem step_ref (env : Env) (ok : EnvOK env) (s : State) (sp : Spec) (h : Ref env s sp) (op : Op)
     (hno : op.isReopen = false) (hsz : op.sizeOK) :
-    Ref env (step env s op).1 (specStep sp op) ∧ (claimR s sp op).holds (step env s op).2 := by
+    Ref env (step env s op).1 (specStep s sp op) ∧ (claimR s sp op).holds (step env s op).2 := by
   have hopn := h.opn
   cases op with
   | reopen o => simp [Op.isReopen] at hno
@@ -1099,11 +1135,19 @@ theorem step_ref (env : Env) (ok : EnvOK env) (s : State) (sp : Spec) (h : Ref e
         intro e' he'; rw [hsp] at he'; cases he'
       | some e0 =>
         simp only
-        refine blockInvalid_ref env s sp _ h hash (hopn.trans ho).symm (fun k' hne => by simp only [AL.get_set, if_neg hne]) ?_
-          (fun _ _ => ⟨_, by rw [AL.get_set, if_pos rfl]⟩)
-        intro e' he'
-        simp only [AL.get_set, ↓reduceIte, Option.some.injEq] at he'
-        subst he'; rfl
+        have htaint : Ref env (blockInvalid s hash).1 { isOpen := true, m := AL.set sp.m (keyOf hash) { e0 with tainted := true } } := by
+          refine blockInvalid_ref env s sp _ h hash (hopn.trans ho).symm (fun k' hne => by simp only [AL.get_set, if_neg hne]) ?_
+            (fun _ _ => ⟨_, by rw [AL.get_set, if_pos rfl]⟩)
+          intro e' he'
+          simp only [AL.get_set, ↓reduceIte, Option.some.injEq] at he'
+          subst he'; rfl
+        by_cases hf : forgets s (keyOf hash) = true
+        · simp only [hf, ↓reduceIte]
+          exact ref_spec_drop env _ _ _ htaint (keyOf hash) rfl
+            (fun k' hne => by simp only [AL.get_set, AL.get_del, if_neg hne]) (by simp only [AL.get_del, ↓reduceIte])
+            (blockInvalid_forgets s hash hf)
+        · simp only [hf, Bool.false_eq_true, ↓reduceIte]
+          exact htaint
     · simp only [ho, hopn, Bool.not_false, ↓reduceIte]; exact ⟨h, trivial⟩
   | idle =>
     unfold step specStep claimR
